@@ -232,11 +232,11 @@ func DecodeSetup(js string) (*Setup, error) {
 				Oblig []string        `json:"oblig"`
 				Fns   json.RawMessage `json:"fns"`
 			} `json:"cfg"`
-			Bundle map[string]*core.Tmpl              `json:"bundle"`
-			Data   map[string]map[string]core.V       `json:"data"`
-			IJ     core.V                             `json:"ij"`
-			Expr   core.E                             `json:"expr"`
-			Files  []string                           `json:"files"`
+			Bundle map[string]*core.Tmpl        `json:"bundle"`
+			Data   map[string]map[string]core.V `json:"data"`
+			IJ     core.V                       `json:"ij"`
+			Expr   core.E                       `json:"expr"`
+			Files  []string                     `json:"files"`
 		} `json:"setup"`
 	}
 	if err := json.Unmarshal([]byte(js), &raw); err != nil {
